@@ -26,7 +26,7 @@ theorem np_arithAdd (x y : Expr) : NoPanic (arithAdd x y) := by
 theorem np_arithSub (x y : Expr) : NoPanic (arithSub x y) := by
   unfold arithSub
   split
-  · exact np_ok _
+  · exact np_arithNeg _
   · exact np_bind (np_arithNeg _) fun _ => np_arithAdd _ _
   · exact np_bind (np_arithNeg _) fun _ => np_arithAdd _ _
   · exact np_errBin _
